@@ -33,10 +33,13 @@ CHECKS["C14"] = {
             "(chunk boundary with/without timeout, timeout before the flush or not) x patterns {handler: recv(t) then recv(0) while CONTINUE; "
             "recv(t) only; recv(0) until timeout then recv(t)} x start states {INIT outstanding; RESETTED received + info requested; same "
             "10 s later} x startArbitration(31) yes/no; each followed by the flush 70 | 71 (one byte per read) and a full drain. "
+            "frame mode: additionally all sequences of up to 4 (thorough 5) whole items out of {55, RECEIVED aa, INFO, STARTED 31, "
+            "FAILED 31, ERROR_EBUS, RESETTED, undefined command} (up to 8 / 10 bytes), same partitions/patterns/start states. "
             "Oracle: symbols with won/lost marks = RefEnhDecoder (a first byte without second byte may swallow the next byte: both readings "
             "allowed); the three projections (symbols, terminal arbitration states, notifyDeviceStatus texts) are compared separately "
             "between all executions of a stream; error/timeout arbitration states only for a running arbitration with a cause in the "
-            "stream; runs that close the transport (adapter self-reset) are compared up to the close. states = distinct (device, transport) "
+            "stream, and (synchronous scanner over the bytes the implementation has read when the state is reported) error only after a "
+            "reset/error/undefined/malformed item was read, timeout only after a SYN symbol was read; runs that close the transport (adapter self-reset) are compared up to the close. states = distinct (device, transport) "
             "field valuations reached; evaluations = executions actually run after merging (counters give the partitions they stand for); "
             "distinct = distinct final observations of streams up to length 5. "
             "enc: send/startArbitration/requestEnhancedInfo (wait and nowait) for all 256 values, INIT on open, START SYN on cancel. "
@@ -49,10 +52,11 @@ CHECKS["C14"] = {
     "runs": [{
         "harness": "c14_framing", "sources": SRC, "deps": DEPS, "variant": "plain",
         "quick": {"parts": 16, "args": ["--len", 5, "--xval", 4], "deadline": 400,
-                  "bounds": "streams <= 5 bytes for all 18 mode combinations; merge validation <= 4; transport search depth 20 (hashed) / 5-6 (unhashed)"},
+                  "bounds": "streams <= 5 bytes for all 18 mode combinations + sequences of <= 4 whole items (<= 8 bytes); merge validation <= 4; transport search depth 20 (hashed) / 5-6 (unhashed)"},
         "thorough": {"parts": 16, "args": ["--len", 5, "--deepmodes", DEEP, "--xval", 4], "deadline": 6000,
                      "bounds": "streams <= 7 bytes for mode S0a1p0 (handler pattern, arbitration running, just opened), <= 6 for the other five "
-                               "handler-pattern combinations and for S0a1p1 S0a1p2 S1a1p1 S1a1p2, <= 5 for the remaining 8 combinations; merge validation <= 4; transport search depth 20 (hashed) / 6-7 (unhashed)"},
+                               "handler-pattern combinations and for S0a1p1 S0a1p2 S1a1p1 S1a1p2, <= 5 for the remaining 8 combinations; sequences of <= 5 "
+                               "whole items (<= 10 bytes) for all 18 combinations; merge validation <= 4; transport search depth 20 (hashed) / 6-7 (unhashed)"},
     }],
 }
 
